@@ -29,7 +29,7 @@ class Exec(Part):
 
     def budget(self, tier):
         return {"quick": dict(examples=250, shards=5, seconds=80),
-                "thorough": dict(examples=2500, shards=16, seconds=900)}[tier]
+                "thorough": dict(examples=2500, shards=16, seconds=600)}[tier]
 
     def strategy(self, tier):
         return gen.case_cascade(max_extent=4 if tier == "quick" else 6)
@@ -85,7 +85,7 @@ class Text(Part):
 
     def budget(self, tier):
         return {"quick": dict(examples=120, shards=3, seconds=80),
-                "thorough": dict(examples=1200, shards=16, seconds=900)}[tier]
+                "thorough": dict(examples=1200, shards=16, seconds=600)}[tier]
 
     def strategy(self, tier):
         @st.composite
